@@ -131,8 +131,9 @@ inline std::string proj(SoPlex& s, bool allowInternal = false)
    if(hasQ)
    {
       o.raw("q", projRational(s));
-      o.raw("rowTypes", jarr(Probe::nRowTypes(s), [&](int i) { return std::to_string(Probe::rowType(s, i)); }));
-      o.raw("colTypes", jarr(Probe::nColTypes(s), [&](int i) { return std::to_string(Probe::colType(s, i)); }));
+      // entries beyond the LP's dimension (left behind by an exact solve that ended in an error) are uninitialised memory: -1
+      o.raw("rowTypes", jarr(Probe::nRowTypes(s), [&](int i) { return i < s.numRowsRational() ? std::to_string(Probe::rowType(s, i)) : std::string("-1"); }));
+      o.raw("colTypes", jarr(Probe::nColTypes(s), [&](int i) { return i < s.numColsRational() ? std::to_string(Probe::colType(s, i)) : std::string("-1"); }));
       // (areLPsInSync() converts every floating-point number to a rational: GMP raises SIGFPE on an IEEE infinity, which a
       //  reader can leave behind for a number with thousands of digits; not called then)
       bool finite = true; const SPxLPBase<double>& rl = Probe::realLP(s);
